@@ -6,6 +6,7 @@ import (
 	"go/types"
 	"os"
 	"path/filepath"
+	"regexp"
 	"sort"
 	"strings"
 	"sync"
@@ -104,6 +105,20 @@ func (e *Engine) buildQuery(p *OblPath, withModel bool, uses []string) string {
 	mt := ""
 	if withModel {
 		ts := e.modelTerms()
+		// ground applications of pure (uninterpreted) functions that occur on this path
+		bs := body.String()
+		seenT := map[string]bool{}
+		for i := 0; i+6 < len(bs) && len(seenT) < 40; i++ {
+			if strings.HasPrefix(bs[i:], "(pure_") {
+				if j := matchParen(bs, i); j > 0 {
+					t := bs[i : j+1]
+					if !seenT[t] && !boundVarRe.MatchString(t) && len(t) < 400 {
+						seenT[t] = true
+						ts = append(ts, t)
+					}
+				}
+			}
+		}
 		if len(ts) > 0 {
 			mt = "(get-value (" + strings.Join(ts, " ") + "))\n"
 		}
@@ -117,6 +132,8 @@ func (e *Engine) buildQuery(p *OblPath, withModel bool, uses []string) string {
 	b.WriteString(mt)
 	return b.String()
 }
+
+var boundVarRe = regexp.MustCompile(`![qfhsapc]\d*\b|\b[a-z]!\d|r!f|i!h|i!p|j!p|i!a|i!c`)
 
 type pathJob struct {
 	obl   *Obl
